@@ -1022,6 +1022,12 @@ func (g *Gen) Tx(v *view) error {
 				}
 			}
 		}
+		if g.chance(0.12) {
+			// a keep-alive: the stored figures re-sent unchanged (it still renews the session's deadline)
+			if x, found := k.Session.GetSession(ctx, id); found && !x.Bandwidth.IsAnyNil() {
+				up, down, dur = x.Bandwidth.Upload.String(), x.Bandwidth.Download.String(), int64(x.Duration)
+			}
+		}
 		return g.line("tx sessUpdate from=%s id=%d up=%s down=%s dur=%d sig=%s%s", hexs(g.whoRel(node, acc)), id, up, down, dur, sig, g.addrExtra("from"))
 	case "sessEnd":
 		id := g.someID(sessMax)
